@@ -1,4 +1,6 @@
 import QcelVerif.Model.Munkres
+import QcelVerif.Model.MunkresFloat
+import QcelVerif.Model.Hash
 import QcelVerif.Lib.Proto
 /-! Line-protocol driver for C14.
 
@@ -7,6 +9,13 @@ import QcelVerif.Lib.Proto
 * `R|ndim|n|m|dt|e e e …`  result only → `ok|steps|pairs|reduced|cert`
 * `K|n|m|cost…|i,j i,j …|reduced…`  run the *proved* certificate checker on somebody else's answer
     → `cert|assign|rowsinc|exact|gap`
+* `F|ndim|n|m|dt|e e e …|w`  the run IN THE WORK DTYPE `w` ∈ f64 i64 u64 (`Model/MunkresFloat.lean: solveFloat` with
+  IEEE round-to-nearest-even / two's-complement wrap at every `+`/`−` of the work matrix), full trace
+    → `<as T>@M|B|inside|spread|same`   where `M` = max |entry|, `B` = `boundB M n m` (= 8·M) of `Props/C14Exact.lean`,
+    `inside` = 1 iff the hypotheses of `float_exact_on_small_integers` (f64: integers, `B ≤ 2^53`) / `no_overflow_int64`
+    (i64: `B < 2^63`) / `no_overflow_uint64` (u64: `B < 2^64`) hold (then the theorem says this line equals the `T` line),
+    `spread` = 1 iff those of `no_overflow_int64_spread` hold (i64 only: `4·(max − min) < 2^63`),
+    `same` = 1 iff the rounded run and the exact run of the model coincide (trace, pairs, reduced matrix)
 
 `dt` ∈ f i b o; entries are `p`, `p/q`, `inf`, `-inf`, `nan` in row-major order.
 state = `C…;marked digits;rowUnc bits;colUnc bits;z0r,z0c;r.c r.c …`
@@ -65,6 +74,45 @@ def runSolve (full : Bool) (inp : Input) : String :=
       showMat o.red, if cert then "1" else "0"]
     if full then head ++ "|" ++ "#".intercalate (o.trace.toList.map fun p => showState p.2) else head
 
+def absR (x : Rat) : Rat := if x < 0 then -x else x
+
+def showOut (inp : Input) (full : Bool) (r : Except Err Output) : String :=
+  match r with
+  | .error e => "err|" ++ showErr e
+  | .ok o =>
+    let cert := certOK inp.n inp.m inp.costFn (matFn o.red) o.pairs
+    let head := "|".intercalate ["ok", String.join (o.trace.toList.map fun p => p.1.name), showPairs o.pairs,
+      showMat o.red, if cert then "1" else "0"]
+    if full then head ++ "|" ++ "#".intercalate (o.trace.toList.map fun p => showState p.2) else head
+
+def sameOut (a b : Except Err Output) : Bool :=
+  match a, b with
+  | .error e, .error e' => e == e'
+  | .ok x, .ok y => x.pairs == y.pairs && x.red == y.red && x.trace == y.trace
+  | _, _ => false
+
+/-- the run in the work dtype, with the theorem's bound -/
+def runFloat (w : String) (inp : Input) : String :=
+  let rnd? : Option (Rat → Rat) :=
+    if w == "f64" then some Hash.rndDouble else if w == "i64" then some wrapInt64
+    else if w == "u64" then some wrapUInt64 else none
+  match rnd? with
+  | none => "bad-op"
+  | some rnd =>
+    let rF := solveFloat rnd inp
+    let rE := solve inp
+    let valid := inp.ndim == 2 && inp.dt != .other && inp.allFinite
+    let lo := if valid then inp.minEntry else 0
+    let hi := if valid then inp.maxEntry else 0
+    let M := if absR lo < absR hi then absR hi else absR lo
+    let B := boundB M inp.n inp.m
+    let lim : Rat := if w == "f64" then 2 ^ 53 else if w == "i64" then 2 ^ 63 else 2 ^ 64
+    let within := if w == "f64" then decide (B ≤ lim) else decide (B < lim)
+    let inside := valid && inp.intBoxB (-M) M && within
+    let spread := valid && w == "i64" && inp.intBoxB lo hi && decide (4 * (hi - lo) < 2 ^ 63)
+    let b := fun (x : Bool) => if x then "1" else "0"
+    showOut inp true rF ++ "@" ++ "|".intercalate [showRat M, showRat B, b inside, b spread, b (sameOut rF rE)]
+
 def parsePair? (s : String) : Option (Nat × Nat) :=
   match splitOnChar s ',' with
   | [a, b] => do let a ← parseNat? a; let b ← parseNat? b; return (a, b)
@@ -96,6 +144,12 @@ def stepC14 (line : String) : String :=
       | some inp => runSolve (op == "T") inp
       | none => "bad-op"
     else if op == "K" then runCert nd n m dt ents
+    else "bad-op"
+  | [op, nd, n, m, dt, ents, w] =>
+    if op == "F" then
+      match parseInput? nd n m dt ents with
+      | some inp => runFloat w inp
+      | none => "bad-op"
     else "bad-op"
   | _ => "bad-op"
 
